@@ -1,9 +1,10 @@
 #!/bin/bash
-# Offline setup: build both harness configurations from files on disk.
+# Offline setup: build the harness configurations (optimised parallel, optimised sequential, unoptimised worker) from files on disk.
 set -e
 cd /verif/harness
 export CARGO_NET_OFFLINE=true
 unset RUSTFLAGS
 CARGO_TARGET_DIR=/verif/target-par cargo build --release --offline --features par
 CARGO_TARGET_DIR=/verif/target-seq cargo build --release --offline
+CARGO_TARGET_DIR=/verif/target-dbg cargo build --offline --features par
 echo setup ok
